@@ -227,3 +227,303 @@ pub fn self_test() -> Result<(), String> {
     }
     Ok(())
 }
+
+// -------------------------------------------------------------------------------------------
+// rendering with XML-equivalent spellings, and canonical comparison (C13)
+
+#[derive(Debug, Clone, Default)]
+pub struct Style {
+    /// index of the text node to render as CDATA
+    pub cdata_at: Option<usize>,
+    /// (text node index, char offset): insert a comment inside the text
+    pub comment_in_text: Option<(usize, usize)>,
+    /// (text node index, char offset): render that character as a numeric reference (hex if .2)
+    pub charref: Option<(usize, usize, bool)>,
+    /// element index before which a comment / PI is inserted
+    pub comment_before_elem: Option<usize>,
+    pub pi_before_elem: Option<usize>,
+    /// render empty elements as <a/>
+    pub self_close_empty: bool,
+    /// newline + indentation between element children (never inside text-bearing elements)
+    pub pretty: bool,
+    pub single_quote_attrs: bool,
+    /// escape > " ' in text as entities
+    pub escape_all: bool,
+    pub decl: bool,
+    pub comment_after_root: bool,
+}
+
+fn esc_text(s: &str, all: bool, out: &mut String) {
+    for c in s.chars() {
+        match c {
+            '<' => out.push_str("&lt;"),
+            '&' => out.push_str("&amp;"),
+            '>' => out.push_str("&gt;"),
+            '\r' => out.push_str("&#13;"),
+            '"' if all => out.push_str("&quot;"),
+            '\'' if all => out.push_str("&apos;"),
+            c => out.push(c),
+        }
+    }
+}
+
+struct Renderer<'a> {
+    st: &'a Style,
+    text_idx: usize,
+    elem_idx: usize,
+    out: String,
+}
+
+impl Renderer<'_> {
+    fn text(&mut self, t: &str) {
+        let idx = self.text_idx;
+        self.text_idx += 1;
+        let chars: Vec<char> = t.chars().collect();
+        if self.st.cdata_at == Some(idx) {
+            // "]]>" cannot occur inside a CDATA section: split there
+            let mut rest = t;
+            while let Some(i) = rest.find("]]>") {
+                self.out.push_str("<![CDATA[");
+                self.out.push_str(&rest[..i + 2]);
+                self.out.push_str("]]>");
+                rest = &rest[i + 2..];
+            }
+            self.out.push_str("<![CDATA[");
+            self.out.push_str(rest);
+            self.out.push_str("]]>");
+            return;
+        }
+        if let Some((i, off)) = self.st.comment_in_text {
+            if i == idx {
+                let off = off.min(chars.len());
+                let a: String = chars[..off].iter().collect();
+                let b: String = chars[off..].iter().collect();
+                esc_text(&a, self.st.escape_all, &mut self.out);
+                self.out.push_str("<!--x-->");
+                esc_text(&b, self.st.escape_all, &mut self.out);
+                return;
+            }
+        }
+        if let Some((i, off, hex)) = self.st.charref {
+            if i == idx && !chars.is_empty() {
+                let off = off.min(chars.len() - 1);
+                let a: String = chars[..off].iter().collect();
+                let b: String = chars[off + 1..].iter().collect();
+                esc_text(&a, self.st.escape_all, &mut self.out);
+                if hex {
+                    self.out.push_str(&format!("&#x{:X};", chars[off] as u32));
+                } else {
+                    self.out.push_str(&format!("&#{};", chars[off] as u32));
+                }
+                esc_text(&b, self.st.escape_all, &mut self.out);
+                return;
+            }
+        }
+        esc_text(t, self.st.escape_all, &mut self.out);
+    }
+
+    fn elem(&mut self, e: &Elem, depth: usize) {
+        let idx = self.elem_idx;
+        self.elem_idx += 1;
+        if self.st.comment_before_elem == Some(idx) {
+            self.out.push_str("<!-- c -->");
+        }
+        if self.st.pi_before_elem == Some(idx) {
+            self.out.push_str("<?verif pi?>");
+        }
+        self.out.push('<');
+        self.out.push_str(&e.name);
+        let q = if self.st.single_quote_attrs { '\'' } else { '"' };
+        for (k, v) in &e.attrs {
+            self.out.push(' ');
+            self.out.push_str(k);
+            self.out.push('=');
+            self.out.push(q);
+            for c in v.chars() {
+                match c {
+                    '<' => self.out.push_str("&lt;"),
+                    '&' => self.out.push_str("&amp;"),
+                    '"' => self.out.push_str("&quot;"),
+                    '\'' => self.out.push_str("&apos;"),
+                    '\n' => self.out.push_str("&#10;"),
+                    '\t' => self.out.push_str("&#9;"),
+                    '\r' => self.out.push_str("&#13;"),
+                    c => self.out.push(c),
+                }
+            }
+            self.out.push(q);
+        }
+        if e.children.is_empty() && self.st.self_close_empty {
+            self.out.push_str("/>");
+            return;
+        }
+        self.out.push('>');
+        let element_only = !e.children.is_empty() && e.children.iter().all(|n| matches!(n, Node::Elem(_)));
+        for n in &e.children {
+            if element_only && self.st.pretty {
+                self.out.push('\n');
+                self.out.push_str(&"  ".repeat(depth + 1));
+            }
+            match n {
+                Node::Elem(c) => self.elem(c, depth + 1),
+                Node::Text(t) => self.text(t),
+            }
+        }
+        if element_only && self.st.pretty {
+            self.out.push('\n');
+            self.out.push_str(&"  ".repeat(depth));
+        }
+        self.out.push_str("</");
+        self.out.push_str(&e.name);
+        self.out.push('>');
+    }
+}
+
+pub fn render(root: &Elem, st: &Style) -> String {
+    let mut r = Renderer { st, text_idx: 0, elem_idx: 0, out: String::new() };
+    if st.decl {
+        r.out.push_str("<?xml version=\"1.0\" encoding=\"UTF-8\"?>");
+        if st.pretty {
+            r.out.push('\n');
+        }
+    }
+    r.elem(root, 0);
+    if st.comment_after_root {
+        r.out.push_str("<!-- end -->");
+    }
+    if st.pretty {
+        r.out.push('\n');
+    }
+    r.out
+}
+
+pub fn count_nodes(e: &Elem) -> (usize, usize) {
+    // (elements, text nodes)
+    let mut ne = 1;
+    let mut nt = 0;
+    for n in &e.children {
+        match n {
+            Node::Elem(c) => {
+                let (a, b) = count_nodes(c);
+                ne += a;
+                nt += b;
+            }
+            Node::Text(_) => nt += 1,
+        }
+    }
+    (ne, nt)
+}
+
+/// tolerant, type-free relation between two leaf texts (lexical leniency XML Schema types allow)
+pub fn leaf_equiv(a: &str, b: &str) -> bool {
+    if a == b {
+        return true;
+    }
+    let (ta, tb) = (a.trim_matches([' ', '\t', '\n', '\r']), b.trim_matches([' ', '\t', '\n', '\r']));
+    if ta.is_empty() && tb.is_empty() {
+        // whitespace-only content of an element-only type vs its empty re-encoding (type-free relation)
+        return true;
+    }
+    if ta.eq_ignore_ascii_case(tb) && matches!(ta.to_ascii_lowercase().as_str(), "true" | "false") {
+        return true;
+    }
+    fn int(s: &str) -> Option<i128> {
+        let (neg, digits) = match s.strip_prefix('-') {
+            Some(r) => (true, r),
+            None => (false, s.strip_prefix('+').unwrap_or(s)),
+        };
+        if digits.is_empty() || digits.len() > 30 || !digits.bytes().all(|b| b.is_ascii_digit()) {
+            return None;
+        }
+        digits.parse::<i128>().ok().map(|v| if neg { -v } else { v })
+    }
+    if let (Some(x), Some(y)) = (int(ta), int(tb)) {
+        return x == y;
+    }
+    if let (Ok(x), Ok(y)) = (
+        time::OffsetDateTime::parse(ta, &time::format_description::well_known::Rfc3339),
+        time::OffsetDateTime::parse(tb, &time::format_description::well_known::Rfc3339),
+    ) {
+        return x.unix_timestamp_nanos() / 1_000_000 == y.unix_timestamp_nanos() / 1_000_000;
+    }
+    false
+}
+
+/// canonical form for the retraction oracle: namespace declarations dropped, whitespace-only text
+/// next to child elements dropped, mixed content of element-only types dropped, siblings sorted.
+#[derive(Debug, Clone, PartialEq, Eq, PartialOrd, Ord)]
+pub enum Canon {
+    Leaf { name: String, attrs: Vec<(String, String)>, text: String },
+    Node { name: String, attrs: Vec<(String, String)>, children: Vec<Canon> },
+}
+
+pub fn canon(e: &Elem) -> Canon {
+    // attributes are a stated don't-care of C13 (the codec models none; xsi:type is owned by C02/C03)
+    let attrs: Vec<(String, String)> = Vec::new();
+    let has_elems = e.children.iter().any(|n| matches!(n, Node::Elem(_)));
+    if has_elems {
+        let mut children: Vec<Canon> = e.elems().map(canon).collect();
+        children.sort();
+        Canon::Node { name: e.name.clone(), attrs, children }
+    } else {
+        Canon::Leaf { name: e.name.clone(), attrs, text: e.text() }
+    }
+}
+
+#[derive(Debug, Clone)]
+pub enum CanonDiff {
+    Leaf { name: String, doc_text: String, re_text: String },
+    Other(String),
+}
+
+impl std::fmt::Display for CanonDiff {
+    fn fmt(&self, f: &mut std::fmt::Formatter<'_>) -> std::fmt::Result {
+        match self {
+            CanonDiff::Leaf { name, doc_text, re_text } => write!(f, "leaf <{name}>: document has {doc_text:?}, accepted value re-encodes as {re_text:?}"),
+            CanonDiff::Other(s) => f.write_str(s),
+        }
+    }
+}
+
+/// compare canon trees; leaves with the tolerant relation. Returns the first difference.
+pub fn canon_diff(doc: &Canon, reenc: &Canon) -> Option<CanonDiff> {
+    match (doc, reenc) {
+        (Canon::Leaf { name: n1, attrs: a1, text: t1 }, Canon::Leaf { name: n2, attrs: a2, text: t2 }) => {
+            if n1 != n2 || a1 != a2 {
+                return Some(CanonDiff::Other(format!("element <{n1}> {a1:?} vs <{n2}> {a2:?}")));
+            }
+            if leaf_equiv(t1, t2) { None } else { Some(CanonDiff::Leaf { name: n1.clone(), doc_text: t1.clone(), re_text: t2.clone() }) }
+        }
+        (Canon::Node { name: n1, attrs: a1, children: c1 }, Canon::Node { name: n2, attrs: a2, children: c2 }) => {
+            if n1 != n2 || a1 != a2 {
+                return Some(CanonDiff::Other(format!("element <{n1}> {a1:?} vs <{n2}> {a2:?}")));
+            }
+            if c1.len() != c2.len() {
+                let names = |c: &Vec<Canon>| c.iter().map(|x| match x { Canon::Leaf { name, .. } | Canon::Node { name, .. } => name.clone() }).collect::<Vec<_>>();
+                return Some(CanonDiff::Other(format!("children of <{n1}>: document has {:?}, accepted value re-encodes {:?}", names(c1), names(c2))));
+            }
+            // siblings are sorted with exact text; tolerant leaves may sort differently, so match greedily
+            let mut used = vec![false; c2.len()];
+            let mut first: Option<CanonDiff> = None;
+            'outer: for x in c1 {
+                for (j, y) in c2.iter().enumerate() {
+                    if !used[j] && canon_diff(x, y).is_none() {
+                        used[j] = true;
+                        continue 'outer;
+                    }
+                }
+                let cand = c2.iter().enumerate().find(|(j, _)| !used[*j]).map(|(_, y)| y);
+                first = Some(match cand.and_then(|y| canon_diff(x, y)) {
+                    Some(d) => d,
+                    None => CanonDiff::Other(format!("no counterpart under <{n1}>")),
+                });
+                break;
+            }
+            first
+        }
+        // an empty element may be a leaf with empty text on one side and a childless node on the other
+        (Canon::Leaf { name: n1, text, .. }, Canon::Node { name: n2, children, .. }) | (Canon::Node { name: n2, children, .. }, Canon::Leaf { name: n1, text, .. }) => {
+            if n1 == n2 && children.is_empty() && text.trim().is_empty() { None } else { Some(CanonDiff::Other(format!("<{n1}>: leaf vs element content"))) }
+        }
+    }
+}
